@@ -1,5 +1,6 @@
 import RzmqModel.Driver.Common
 import RzmqModel.Model.Routing
+import RzmqModel.Model.Multipart
 namespace Rzmq.Driver.Routing
 open Rzmq Rzmq.Driver
 
@@ -7,6 +8,7 @@ structure St where
   trie : Trie := Trie.empty
   lb : Lb := {}
   map : RouterMap := {}
+  stash : Stash := {}
 
 def b (v : Bool) : String := if v then "true" else "false"
 
@@ -24,8 +26,23 @@ def insertSorted (x : String) : List String → List String
 
 def sortStrings (l : List String) : List String := l.foldr insertSorted []
 
+def showStashOut : StashOut → String
+  | .ok => "ok" | .refused => "refused" | .noPipe => "no-pipe" | .wouldBlock => "E(WouldBlock)"
+  | .frame f => showFrame f
+  | .frames fs => s!"[{showFrames fs}]"
+
+def stashOp (st : St) (ev : StashEv) : St × String :=
+  let r := st.stash.step ev
+  ({ st with stash := r.1 }, showStashOut r.2)
+
 def runOp (st : St) (p : List String) : St × String :=
   match p with
+  | ["stash", "new"] => ({ st with stash := {} }, "ok")
+  | ["stash", "pipe", id, cap] => stashOp st (.register id.toNat! cap.toNat!)
+  | ["stash", "put", id, m] => stashOp st (.put id.toNat! (parseMessage m))
+  | ["stash", "recv"] => stashOp st .recv
+  | ["stash", "recvmp"] => stashOp st .recvMultipart
+  | ["stash", "dereg", id] => stashOp st (.detach id.toNat!)
   | ["trie", "new"] => ({ st with trie := Trie.empty }, "ok")
   | ["trie", "sub", t] => ({ st with trie := st.trie.subscribe (parseBytes t) }, "ok")
   | ["trie", "unsub", t] =>
